@@ -21,11 +21,14 @@
 //	                                                             to the delegator in per-owner views
 //	claim-balance      delegRwz_balance_<addr>      OLT base     delegator
 //	claim-pending      delegRwz_pending_<h>_<addr>  OLT base     delegator
-//	proposal-escrow    propFunds_i_<id>_<addr>      OLT base     funder (in totals, not a holding)
+//	proposal-escrow    propFunds_t_<id>             OLT base     the proposal (in totals, not a holding): the record the
+//	                                                             application pays out from (finalisation distributes it,
+//	                                                             a withdrawal must fit into it)
 //	bid-escrow         extBidOffer_… (status locked) base        bidder (in totals, not a holding)
 //
 // Cross-check records (decoded, checked for sign, never summed): st__e_<val>_<deleg>, st__t_<val>,
-// propFunds_t_<id>. Everything else that is known (validator reward records rwz_/rwcum_/rwaddr_/ri_,
+// propFunds_i_<id>_<funder> (per-funder shares of an escrow; finalising two proposals in one block leaves
+// the second one's shares behind as dead records, so they are not the measure of the escrow). Everything else that is known (validator reward records rwz_/rwcum_/rwaddr_/ri_,
 // the claims counter delegRwz_total_rewards, options g_, evidence es__, trackers etht_/ethfailed_/
 // ethsuccess_/btct_, domains d_, validators v_, witnesses w_, purge records purged_, proposals and
 // votes prop…, EVM accounts keeper_ and storage contracts_, bid conversations extBidConv…) is "not value".
@@ -60,7 +63,7 @@ const (
 	// cross-check only
 	StakeValDeleg  = "stake-val-deleg"
 	StakeValTotal  = "stake-val-total"
-	ProposalTotal  = "proposal-total"
+	ProposalFunder = "proposal-funder"
 	ClaimsCounter  = "claims-counter"
 	notValueClass  = "not-value"
 	feePoolRawKey  = "00000000000000000000"
@@ -475,8 +478,8 @@ func hPropFundIndiv(l *Ledger, key, rest string, v []byte) error {
 	if err != nil {
 		return err
 	}
-	// Height is unused; the proposal id is kept in Cur's place of a second field through Key
-	l.add(Entry{Key: key, Class: ProposalEscrow, Cur: "OLT", Owner: rest[i+1:], Amt: a, InTotal: true})
+	// Cur carries the proposal id for the cross-check
+	l.add(Entry{Key: key, Class: ProposalFunder, Cur: rest[:i], Owner: rest[i+1:], Amt: a})
 	return nil
 }
 
@@ -485,7 +488,7 @@ func hPropFundTotal(l *Ledger, key, rest string, v []byte) error {
 	if err != nil {
 		return err
 	}
-	l.add(Entry{Key: key, Class: ProposalTotal, Cur: "OLT", Amt: a})
+	l.add(Entry{Key: key, Class: ProposalEscrow, Cur: "OLT", Owner: "proposal:" + rest, Amt: a, InTotal: true})
 	return nil
 }
 
@@ -828,6 +831,42 @@ func (l *Ledger) StakeCrossSums() []string {
 	cmp("validator", vt, byVal, "st__t_<val>", "sum of st__e_<val>_*")
 	cmp("delegator", de, byDeleg, "st__d_e_<deleg>", "sum of st__e_*_<deleg>")
 	return bad
+}
+
+// ProposalFundMismatches lists the proposals whose escrow record differs from the sum of its per-funder
+// shares (an observation for the governance properties, not a C02 oracle).
+func (l *Ledger) ProposalFundMismatches() []string {
+	t, i := map[string]*big.Int{}, map[string]*big.Int{}
+	for _, e := range l.Entries {
+		switch e.Class {
+		case ProposalEscrow:
+			addTo(t, strings.TrimPrefix(e.Owner, "proposal:"), e.Amt)
+		case ProposalFunder:
+			addTo(i, e.Cur, e.Amt)
+		}
+	}
+	ids := map[string]bool{}
+	for k := range t {
+		ids[k] = true
+	}
+	for k := range i {
+		ids[k] = true
+	}
+	var out []string
+	for id := range ids {
+		x, y := t[id], i[id]
+		if x == nil {
+			x = new(big.Int)
+		}
+		if y == nil {
+			y = new(big.Int)
+		}
+		if x.Cmp(y) != 0 {
+			out = append(out, fmt.Sprintf("proposal %s: propFunds_t = %s, sum of propFunds_i = %s", id, x, y))
+		}
+	}
+	sort.Strings(out)
+	return out
 }
 
 // ---- functions on raw dumps (convenience wrappers) ----
